@@ -384,3 +384,48 @@ Example C06_rules_reject_the_panicking_shapes :
   map fst (StaticRules.check ex_arity) = [ArityMismatch] /\
   map fst (StaticRules.check ex_builtin) = [ArityMismatch].
 Proof. repeat split; vm_compute; reflexivity. Qed.
+
+(* ---------------------------------------------------------------------------------------- *)
+(* 6. ROUND 2, the scoping half, in the direction that is true (proofs/RulesScoped.v).       *)
+(* wf_scoped speaks about ids, the static rules about names; C04's binding relation          *)
+(* LexResolve.lexical joins them.  For programs WITHOUT user-defined functions, run WITHOUT a *)
+(* plan, lexical implies wf_scoped — so for this class no hypothesis about a Coq-side checker *)
+(* of the scoping sites is left: accepted by the static rules + lexical ids + the parser      *)
+(* shape => the run never ends in a Panicked ending at ANY of the fifteen sites.  With user   *)
+(* functions the implication is false (C06_scoping_needs_wf_scoped_with_functions = the      *)
+(* open known finding), with a plan it depends on what the plan removes                      *)
+(* (C06_wf_scoped_is_plan_aware).                                                            *)
+Require Import NS.proofs.RulesScoped.
+
+Theorem C06_lexical_function_free_implies_wf_scoped :
+  forall p, lexical p = true -> nofn p = true -> wf_scoped None p = true.
+Proof. exact lexical_nofn_wf_scoped. Qed.
+Print Assumptions C06_lexical_function_free_implies_wf_scoped.
+
+Theorem C06_function_free_accepted_never_panics :
+  forall p, StaticRules.check p = [] -> lexical p = true -> idx_targets p = true -> nofn p = true ->
+  forall eps fuel s, ending_of (run_impl None eps fuel p) <> Panicked s.
+Proof. exact function_free_accepted_never_panics. Qed.
+Print Assumptions C06_function_free_accepted_never_panics.
+
+(* make a get [1]   a[0] get "s"   if to say (true) start make b get a[0] minus 1  shout(b) end
+   — all hypotheses hold; the dynamically typed element reaches `minus` as a string and the run
+   ends with the Type mismatch error, not a panic *)
+Definition ex_nofn : list stmt :=
+  [ SMake (Some 0) (nm "a") (Some 0) (EArr [one]);
+    SSetIdx (Some 1) (EIdx (EVar (nm "a") (Some 0)) (ENum (F64.of_Z 0))) (EStr (nm "s"));
+    SIf (Some 2) (EBool true)
+      [ SMake (Some 3) (nm "b") (Some 1) (EBin Minus (EIdx (EVar (nm "a") (Some 0)) (ENum (F64.of_Z 0))) one);
+        SExpr (Some 4) (ECall (EVar (nm "shout") None) [EVar (nm "b") (Some 1)] None) ] None ].
+Example C06_function_free_hypotheses_satisfiable :
+  StaticRules.check ex_nofn = [] /\ lexical ex_nofn = true /\ idx_targets ex_nofn = true /\ nofn ex_nofn = true /\
+  wf_scoped None ex_nofn = true /\ ending_of (run_impl None eps0 50 ex_nofn) = RtErr TypeMis.
+Proof. repeat split; vm_compute; reflexivity. Qed.
+
+(* sharpness: with a user function the early-call program of the known finding satisfies every
+   hypothesis except nofn, is not wf_scoped, and panics *)
+Example C06_scoping_needs_wf_scoped_with_functions :
+  StaticRules.check ex_early_call = [] /\ lexical ex_early_call = true /\ idx_targets ex_early_call = true /\
+  nofn ex_early_call = false /\ wf_scoped None ex_early_call = false /\
+  ending_of (run_impl None eps0 50 ex_early_call) = Panicked PVarMissing.
+Proof. repeat split; vm_compute; reflexivity. Qed.
